@@ -31,6 +31,10 @@ class ImaginaryMatch(TraverserMatch):
     def parent(self) -> TraverserMatch:
         return self.real_parent.parent
 
+    @property
+    def remembered_parent(self):
+        return self.real_parent.remembered_parent
+
     def traverse(self, visit: typing.Callable):
         """
         Skip to the real_parent.  This get_match has
